@@ -5,9 +5,14 @@ import (
 	"fmt"
 	"os"
 	"sort"
+	"sync"
+	"sync/atomic"
 	"time"
 
+	beacon "github.com/oasisprotocol/oasis-core/go/beacon/api"
 	"github.com/oasisprotocol/oasis-core/go/common/logging"
+	"github.com/oasisprotocol/oasis-core/go/consensus/api/transaction"
+	"github.com/oasisprotocol/oasis-core/go/consensus/cometbft/abci"
 
 	"verif/engine/chainsim"
 )
@@ -33,6 +38,7 @@ func main() {
 	rtMode := flag.String("runtime", "", "runtime mode: on|off (default: per scenario PRNG)")
 	kmMode := flag.String("km", "", "key manager mode: on|off (default: per profile)")
 	kmChurp := flag.Bool("km-genesis-churp", false, "put a CHURP instance into the genesis document")
+	estBeacon := flag.Bool("estimate-beacon", false, "call EstimateGas with a beacon.VRFProve transaction concurrently to block execution on every test replica (build with -race: witness of the beacon application's unsynchronised backend field)")
 	flag.Parse()
 	chainsim.RuntimeMode = *rtMode
 	chainsim.KeyManagerMode = *kmMode
@@ -57,12 +63,40 @@ func main() {
 	em := &chainsim.ElectionMonitor{Rep: rep}
 	km := &chainsim.KeyManagerMonitor{Rep: rep}
 	regm := &chainsim.RegistryMonitor{Rep: rep}
-	h, err := chainsim.NewHistory(cfg, em, cm, rm, km, regm)
+	vm := &chainsim.VRFMonitor{Rep: rep, Recompute: true}
+	h, err := chainsim.NewHistory(cfg, em, cm, rm, km, regm, vm)
 	if err != nil {
 		fmt.Println("ERR", err)
 		os.Exit(2)
 	}
+	var stop atomic.Bool
+	var wg sync.WaitGroup
+	var estimates atomic.Int64
+	if *estBeacon {
+		tx := transaction.NewTransaction(0, nil, beacon.MethodVRFProve, &beacon.VRFProve{})
+		pk := h.Sc.Entities[0].Nodes[0].Keys.ID.PK
+		for _, r := range h.Tests {
+			wg.Add(1)
+			go func(r *chainsim.Replica) {
+				defer wg.Done()
+				for !stop.Load() {
+					t := *tx
+					r.WithAlive(func(srv *abci.ApplicationServer) {
+						defer func() { _ = recover() }()
+						_, _ = srv.EstimateGas(pk, &t)
+					})
+					estimates.Add(1)
+					time.Sleep(200 * time.Microsecond)
+				}
+			}(r)
+		}
+	}
 	h.Run()
+	stop.Store(true)
+	wg.Wait()
+	if *estBeacon {
+		fmt.Printf("concurrent EstimateGas(beacon.VRFProve) calls: %d\n", estimates.Load())
+	}
 	fmt.Printf("seed=%d height=%d epochs=%d panics=%d div=%d precond=%q rejected=%d paths=%v wall=%v\n", *seed, h.Height, h.EpochTransitions, len(h.Panics), len(h.Divergences), h.PreconditionLost, h.RejectedProposals, h.PathUsed, time.Since(t0))
 	fmt.Printf("params=%+v\n", h.Sc.P)
 	for _, p := range h.Panics {
@@ -97,6 +131,18 @@ func main() {
 			fmt.Printf("  RT %-55s %d\n", k, rep.counts[k])
 		}
 		fmt.Printf("  RT plans %v\n", h.Gen.RuntimePlans())
+	}
+	if h.Sc.IsVRF() {
+		vrep := &printRep{counts: map[string]int64{}}
+		chainsim.ReportVRF(h, vrep)
+		var cs []string
+		for k := range vrep.counts {
+			cs = append(cs, k)
+		}
+		sort.Strings(cs)
+		for _, k := range cs {
+			fmt.Printf("  VRF %-60s %d\n", k, vrep.counts[k])
+		}
 	}
 	if h.Sc.KM != nil {
 		krep := &printRep{counts: map[string]int64{}}
